@@ -36,6 +36,18 @@ func (e *L2Env) MakeHookTx(signer uint64, txSeq uint64, sigOK bool, sends []Hook
 	return Hook{Kind: "tx", Signer: signer, TxSeq: txSeq, SigOK: sigOK, Sends: sends, Raw: raw}
 }
 
+// MakeHookTxMsgs builds a hook payload out of arbitrary messages signed by one user (Kind "rawtx":
+// not expressible in the model's hook language; used by monitor-only streams).
+func (e *L2Env) MakeHookTxMsgs(signer uint64, txSeq uint64, msgs []sdk.Msg, note string) Hook {
+	u := e.User(signer)
+	var accNum uint64
+	if acc := e.AK.GetAccount(e.Ctx, u.Addr); acc != nil {
+		accNum = acc.GetAccountNumber()
+	}
+	raw := e.SignTx(msgs, u.Priv, accNum, txSeq, e.Ctx.ChainID())
+	return Hook{Kind: "rawtx", Signer: signer, TxSeq: txSeq, SigOK: true, Raw: raw, Note: note}
+}
+
 // AccSeq is the x/auth sequence number of a user account.
 func (e *L2Env) AccSeq(id uint64) uint64 {
 	if acc := e.AK.GetAccount(e.Ctx, e.User(id).Addr); acc != nil {
